@@ -53,6 +53,13 @@ int rf_wavheader_decode(const uint8_t *p, unsigned int sz, rf_wavheader_t *wh)
 			wh->channel_mask = rf_unpack_u32le(&pack);
 			rf_unpack_bytes(&pack, wh->sub_format, 16);
 		} else {
+			/* An extension we do not understand is skipped. Its
+			 * length comes straight from the (untrusted) input so
+			 * refuse anything that would take the header length
+			 * beyond what the int return value can express.
+			 */
+			if (wh->fmt_chunk_size - 18 > 0x7fff0000)
+				return -EINVAL;
 			rf_unpack_bytes(&pack, NULL, (wh->fmt_chunk_size - 18));
 		}
 	}
@@ -75,7 +82,8 @@ int rf_wavheader_decode(const uint8_t *p, unsigned int sz, rf_wavheader_t *wh)
 	/* do some basic validation */
 	if (0 != memcmp(riff, wh->chunk_id, 4))
 		return -EINVAL;
-	if (wh->chunk_size < (12 + wh->fmt_chunk_size + wh->fact_chunk_size))
+	if (wh->chunk_size < ((uint64_t) 12 + wh->fmt_chunk_size +
+			      wh->fact_chunk_size))
 		return -EINVAL;
 	if (0 != memcmp(wave, wh->format, 4))
 		return -EINVAL;
@@ -230,7 +238,8 @@ int rf_wavheader_validate(rf_wavheader_t *wh)
 {
 	if (0 != memcmp(riff, wh->chunk_id, 4))
 		return -EINVAL;
-	if (wh->chunk_size < (12 + wh->fmt_chunk_size + wh->fact_chunk_size))
+	if (wh->chunk_size < ((uint64_t) 12 + wh->fmt_chunk_size +
+			      wh->fact_chunk_size))
 		return -EINVAL;
 	if (0 != memcmp(wave, wh->format, 4))
 		return -EINVAL;
